@@ -59,6 +59,27 @@ void run(Report & rep, Rng & rng, int n, double tol)
       ld sc = maxabs(av) * maxabs(bv) * maxabs(to_ld(cc));
       chk("jacobi", jac, VecX::Zero(jac.size()), sc);
     }
+    // homogeneity under exact power-of-two scalings (hat, ad and the bracket are linear; scaling by 2^-k is exact in
+    // floating point, so the results must scale exactly - compared relative to the scaled magnitude, not to 1)
+    for (int k : {20, 45}) {
+      if (sizeof(S) == 4 && k > 20) continue;
+      const S sc = static_cast<S>(std::ldexp(1.0, -k));
+      const T as = sc * a;
+      VecX want = to_ld(G::lie_bracket(a, b)) * static_cast<ld>(sc);
+      VecX got  = to_ld(G::lie_bracket(as, b));
+      VecX got2 = to_ld(G::lie_bracket(b, as));
+      ld den    = std::max<ld>(maxabs(want), static_cast<ld>(sc) * 1e-30L);
+      double e  = static_cast<double>(std::max(maxabs(got - want), maxabs(got2 + want)) / den);
+      if (maxabs(want) == 0) e = static_cast<double>(std::max(maxabs(got), maxabs(got2)));
+      rep.tally(gname + ".bracket_homogeneous", e);
+      if (!(e <= (sizeof(S) == 4 ? 1e-5 : 1e-9))) fail("bracket_homogeneous", e, g, as, b);
+      MatX wantA = mto_ld(G::ad(a)) * static_cast<ld>(sc);
+      MatX gotA  = mto_ld(G::ad(as));
+      ld denA    = std::max<ld>(maxabs(wantA), static_cast<ld>(sc) * 1e-30L);
+      double eA  = maxabs(wantA) == 0 ? static_cast<double>(maxabs(gotA)) : static_cast<double>(maxabs(gotA - wantA) / denA);
+      rep.tally(gname + ".ad_homogeneous", eA);
+      if (!(eA <= (sizeof(S) == 4 ? 1e-5 : 1e-9))) fail("ad_homogeneous", eA, g, as, b);
+    }
     // the same maps through the free functions of the LieGroup interface (and the left/right Jacobian aliases built on them)
     {
       MatX gA = mto_ld(g.Ad());
